@@ -70,6 +70,7 @@ type Flags struct {
 	Replay string
 	Corpus string
 	Scale  float64
+	Mode   string // harness-specific variant selector
 }
 
 func ParseFlags() Flags {
@@ -80,6 +81,7 @@ func ParseFlags() Flags {
 	flag.StringVar(&f.Replay, "replay", "", "replay file (a JSON object with an \"input\" member)")
 	flag.StringVar(&f.Corpus, "corpus", "", "corpus directory (inputs run first)")
 	flag.Float64Var(&f.Scale, "scale", 1, "multiply case counts")
+	flag.StringVar(&f.Mode, "mode", "", "harness-specific variant")
 	flag.Parse()
 	if f.Out == "" {
 		fmt.Fprintln(os.Stderr, "need -out")
@@ -190,7 +192,7 @@ func Main[In any](cfg Config, gen func(f Flags, r *vrand.R, emit func(In)), exec
 	cw := bufio.NewWriter(cj)
 	hist := map[string]int{}
 	distinct := map[string]bool{}
-	var shards []string
+	shards := []string{}
 	var shardTerms []string
 	var shardStart int
 	nCases := 0
@@ -315,4 +317,17 @@ func Guard(d time.Duration, what string, fn func()) *Direct {
 	case <-time.After(d):
 		return &Direct{Kind: "timeout", Detail: fmt.Sprintf("%s: no result within %v", what, d)}
 	}
+}
+
+// PeekMode returns the value of -mode from the command line before flags are parsed.
+func PeekMode() string {
+	for i, a := range os.Args {
+		if (a == "-mode" || a == "--mode") && i+1 < len(os.Args) {
+			return os.Args[i+1]
+		}
+		if len(a) > 6 && (a[:6] == "-mode=") {
+			return a[6:]
+		}
+	}
+	return ""
 }
